@@ -8,6 +8,7 @@ are outside the model and observed by the oracle.
 -/
 import DarsiaProofs.Pipeline
 import DarsiaProofs.Persist
+import DarsiaGen.CallOrder
 namespace Darsia.C13
 open Darsia Darsia.Pipeline
 
@@ -60,7 +61,8 @@ theorem cleaning_filter_nonneg (c : Config) (base : Arr) (extras : List Arr) (t 
 
 def present {α} (o : Option α) (n : StageName) : List StageName := if o.isSome then [n] else []
 
-/-- **Stage order**: the stage objects that exist are called exactly once each, in the documented order
+/-- **Stage order** (definitional case split on the model's `stageList`; the link to the source is
+`source_call_order` / `stage_order_from_source`): the stage objects that exist are called exactly once each, in the documented order
 reduction → cleaning → balancing → restoration → model, with restoration and model swapped when
 `"restoration -> model"` is false; cleaning happens iff extra baselines were given. -/
 theorem stage_order (c : Config) (k : Kind) (base : Option Arr) (extras : List Arr) (probe : Arr) :
@@ -73,12 +75,49 @@ theorem stage_order (c : Config) (k : Kind) (base : Option Arr) (extras : List A
   obtain ⟨opt, r, b, rs, m, first⟩ := c
   cases r <;> cases b <;> cases rs <;> cases m <;> cases first <;> cases t <;> simp [stageList, present]
 
-/-- cleaning is applied iff there is a baseline and at least one extra baseline -/
+/-- the order theorem for an ARBITRARY order of the private stage methods: the stage objects that exist are called
+once each, in that order (induction over the order list) -/
+theorem stage_order_general (order : List StageName) (c : Config) (thr : Option (List Px)) (d : Arr) :
+    (runStages (stageListOf order c thr) d).2.map Prod.fst = order.filter fun n => (stageOf c thr n).isSome := by
+  rw [runStages_names]
+  induction order with
+  | nil => rfl
+  | cons n rest ih =>
+    simp only [stageListOf, List.filterMap_cons, List.filter_cons] at ih ⊢
+    cases h : stageOf c thr n with
+    | none => simpa [h] using ih
+    | some s => simpa [h] using ih
+
+/-- the model's `stageList` is the stage list of the documented order (definitional: case split) -/
+theorem stageList_is_docOrder (c : Config) (thr : Option (List Px)) :
+    stageList c thr = stageListOf (docOrder c.restorationFirst) c thr := by
+  obtain ⟨opt, r, b, rs, m, first⟩ := c
+  cases r <;> cases b <;> cases rs <;> cases m <;> cases first <;> cases thr <;> rfl
+
+/-- **The SOURCE calls its stages in the documented order and chains them**: the sequence of private stage calls in
+`ConcentrationAnalysis.__call__`, extracted from the AST on every check for both settings of
+`first_restoration_then_model`, is reduction → cleaning → balancing → restoration → model (last two swapped), and every
+call is handed the variable the previous call assigned (the first one the difference). Reordering or re-wiring the
+calls in the source breaks this obligation. -/
+theorem source_call_order :
+    ∀ first : Bool, Gen.callOrder first = docOrder first ∧ Gen.callsChained first = true := by decide
+
+/-- **Stage order, from the source order**: with the call order extracted from the source, the stage objects that exist
+are called once each in that order. -/
+theorem stage_order_from_source (c : Config) (k : Kind) (st : AState) (probe : Arr) :
+    (callSt c k st probe).trace.map Prod.fst =
+      (Gen.callOrder c.restorationFirst).filter fun n => (stageOf c st.thr n).isSome := by
+  rw [(source_call_order c.restorationFirst).1]
+  simp only [callSt, stageList_is_docOrder]
+  exact stage_order_general _ c st.thr _
+
+/-- cleaning is applied iff there is a baseline and at least one extra baseline (definitional: unfolds
+`cleaningFilter`) -/
 theorem cleaning_iff (c : Config) (base : Arr) (extras : List Arr) :
     (cleaningFilter c base extras).isSome = !extras.isEmpty := by
   cases extras <;> simp [cleaningFilter]
 
-/-- **Composition**: the result is model(restoration(balancing(cleaning(reduction(difference))))) — and
+/-- **Composition** (definitional case split on `stageList`): the result is model(restoration(balancing(cleaning(reduction(difference))))) — and
 restoration(model(…)) when so configured — where absent stages are identities and each stage receives the
 output of the previous one. -/
 theorem result_eq_composition (c : Config) (k : Kind) (base : Option Arr) (extras : List Arr) (probe : Arr) :
@@ -93,7 +132,8 @@ theorem result_eq_composition (c : Config) (k : Kind) (base : Option Arr) (extra
   cases r <;> cases b <;> cases rs <;> cases m <;> cases first <;> cases t <;>
     simp [stageList, applyOpt, cleanOpt, Stage.pure]
 
-/-- every stage receives exactly the output of the stages before it (the recorded inputs) -/
+/-- every stage receives exactly the output of the stages before it (the recorded inputs; a property of `runStages`,
+the chaining in the source is `source_call_order`) -/
 theorem stage_inputs (c : Config) (k : Kind) (base : Option Arr) (extras : List Arr) (probe : Arr) (i : Nat)
     (hi : i < (stageList c (thrOf c base extras)).length) :
     ((call c k base extras probe).trace[i]?).map Prod.snd =
@@ -204,6 +244,13 @@ theorem result_meta {V : Type} (S : Persist.Sem V) (ok : S.OK) (keys : Persist.C
   have hc : clsOfKind k ∈ Persist.Cls.all := by cases k <;> simp [clsOfKind, Persist.Cls.all]
   exact ⟨fun _ => Persist.scalar_from_any S ok keys hk hc a inv,
     fun _ => Persist.same_class_from_metadata S ok keys hk hc a inv⟩
+
+/-- the key-table hypothesis of `result_meta` is satisfiable: the metadata keys of the three image classes as the code
+has them today (the generated table is discharged in C18) -/
+example : Persist.KeysOK (fun c => match c with
+    | .opticalImage => [.space_dim, .indexing, .dimensions, .origin, .series, .scalar, .date, .reference_date, .time, .name, .color_space]
+    | _ => [.space_dim, .indexing, .dimensions, .origin, .series, .scalar, .date, .reference_date, .time, .name]) :=
+  ⟨by decide, by decide, by decide, by decide⟩
 
 /-- and the kind is one of the two: `ScalarImage` or the probe's own class -/
 theorem result_kind_cases (c : Config) (k : Kind) (st : AState) (probe : Arr) :
